@@ -29,6 +29,20 @@ def run(ctx):
     chk.assumptions += ["a Junos term without route-filter but with `from family X` matches all routes of X: such a term must never be newly created accepting (it is only ever merged onto an existing term)"]
     fn, trees = AC.family_trees(fx)
     chk.analysed(fn)
+    # what is written for a family is a function of {old absent / empty / non-empty} x {new empty / non-empty} only (the abstract cases
+    # below).  A writer that *probes* the sets — "nothing to add? then write nothing" via diff(..).next(), is_subset, a count — has cases
+    # the table does not distinguish: with new a strict subset of old such a shortcut drops the deletions.
+    PROBES = ("Iterator::next", "Iterator::count", "Iterator::any", "Iterator::all", "Iterator::peekable", "Iterator::eq", "Iterator::nth", "Iterator::last",
+              "HashSet::<T, S>::is_subset", "HashSet::<T, S>::is_superset", "HashSet::<T, S>::is_disjoint", "Iterator::min", "Iterator::max", "Iterator::position")
+    probes = []
+    for n2, b in sorted(fx.mir.items()):
+        if n2 == fn or n2.startswith(fn + "::{closure"):
+            for c in b.calls():
+                if not c.macro and c.is_fn(*PROBES) and getattr(c, "desugar", None) != "ForLoop":
+                    probes.append((n2, c))
+    chk.instance("C02/R2", "the family writer does not probe the contents of old / new beyond emptiness (%d probing calls)" % len(probes), fn,
+                 probes[0][1].loc() if probes else None, holds=not probes, key="C02/R2 writer-probes-set-contents",
+                 detail=None if not probes else "%s: the emission depends on a relation between old and new that the abstract cases do not separate" % T.short(probes[0][1].name(), 2))
     n = 0
     names = set()
     for (afi, label), nodes in sorted(trees.items()):
